@@ -502,6 +502,16 @@ class Forest(object):
                          'Component': ['a', 'a&b', 'a^b', 'x' * 250],
                          'SubComponent': ['a', '12', '2020', 'x' * 250, 'notadate', '1.5']}[cls]
                 a = Applied('value', el)
+                if op['k'] % 5 == 4 and cls in ('Field', 'Component'):
+                    # a base datatype object (of the leaf's class, or of another one: refused) given through .value
+                    a = Applied('value:datatype-object', el)
+                    try:
+                        bdt = T.lib(el.version).BASE_DATATYPES
+                        obj = [bdt['ST']('obj'), bdt['NM'](7), bdt['SI'](3), bdt['ID']('A')][(op['k'] // 5) % 4]
+                        el.value = obj
+                    except Exception as e:
+                        a.raised = e
+                    return a
                 try:
                     el.value = texts[op['k'] % len(texts)]
                 except Exception as e:
